@@ -24,6 +24,14 @@ func Copy(source, dest string) error {
 	}
 	defer in.Close()
 
+	if inInfo, err := in.Stat(); err == nil {
+		if outInfo, err := os.Stat(dest); err == nil && os.SameFile(inInfo, outInfo) {
+			/* the file is where it is wanted already; opening it for
+			 * writing would leave nothing of it */
+			return nil
+		}
+	}
+
 	out, err := os.Create(dest)
 	if err != nil {
 		return err
